@@ -99,7 +99,7 @@ def main():
             print("  check %s: exit=%d violations=%d %.0fs %s" % (c, rc, len(vio), time.time() - t0,
                                                                   expl[0][:200] if expl else ""))
         meta["checks"] = results
-        meta["detected_by"] = sorted(c for c, r in results.items() if r["exit"] == 1)
+        meta["detected_by"] = sorted(c for c, r in results.items() if r["exit"] == 1 and r.get("violations"))
         if ok:
             out_dir = os.path.join(VERIF, "seeded", "%s-%s" % (pid, label))
             os.makedirs(out_dir, exist_ok=True)
@@ -116,7 +116,7 @@ def main():
                 oc = old.get("checks", {})
                 oc.update(results)
                 meta["checks"] = oc
-                meta["detected_by"] = sorted(c for c, r in oc.items() if r["exit"] == 1)
+                meta["detected_by"] = sorted(c for c, r in oc.items() if r["exit"] == 1 and r.get("violations"))
                 if "needs" in old:
                     meta["needs"] = old["needs"]
             json.dump(meta, open(mp, "w"), indent=1)
